@@ -57,78 +57,101 @@ fn show(h: &[Call]) -> String {
     .join(", ")
 }
 
-pub fn histories(kind: Kind, hot: bool, max_len: usize) -> Vec<Vec<Call>> {
-  struct St {
-    n_sub: usize,
-    live: Vec<bool>,
-    connected: bool,
-    src_done: bool,
+struct St {
+  n_sub: usize,
+  live: Vec<bool>,
+  connected: bool,
+  src_done: bool,
+}
+
+fn rec(cur: &mut Vec<Call>, st: &mut St, kind: Kind, hot: bool, max_len: usize, emit_from: usize, out: &mut dyn FnMut(&[Call])) {
+  if cur.len() > emit_from {
+    out(cur);
   }
-  fn rec(cur: &mut Vec<Call>, st: &mut St, kind: Kind, hot: bool, max_len: usize, out: &mut Vec<Vec<Call>>) {
-    if !cur.is_empty() {
-      out.push(cur.clone());
+  if cur.len() >= max_len {
+    return;
+  }
+  // after the source's terminal the inner subject is terminated: what a late
+  // subscriber of a plain Subject gets is not fixed -> only unsubscribes follow
+  if !st.src_done && st.n_sub < 3 {
+    // take(k) subscribers not for replay(): whether a subscriber that ends during the
+    // hand-over of the history had already connected the source, and how much of a
+    // synchronous emission the history keeps after it left, is not fixed by the statement
+    for variant in 0..(if kind == Kind::Replay { 1 } else { 3usize }) {
+      cur.push(if variant == 0 { Call::Sub(st.n_sub) } else { Call::SubTake(st.n_sub, variant) });
+      st.n_sub += 1;
+      st.live.push(true);
+      rec(cur, st, kind, hot, max_len, emit_from, out);
+      st.live.pop();
+      st.n_sub -= 1;
+      cur.pop();
     }
-    if cur.len() >= max_len {
-      return;
+  }
+  for i in 0..st.n_sub {
+    if st.live[i] {
+      cur.push(Call::Unsub(i));
+      st.live[i] = false;
+      rec(cur, st, kind, hot, max_len, emit_from, out);
+      st.live[i] = true;
+      cur.pop();
     }
-    // after the source's terminal the inner subject is terminated: what a late
-    // subscriber of a plain Subject gets is not fixed -> only unsubscribes follow
-    if !st.src_done && st.n_sub < 3 {
-      // take(k) subscribers not for replay(): whether a subscriber that ends during the
-      // hand-over of the history had already connected the source, and how much of a
-      // synchronous emission the history keeps after it left, is not fixed by the statement
-      for variant in 0..(if kind == Kind::Replay { 1 } else { 3usize }) {
-        cur.push(if variant == 0 { Call::Sub(st.n_sub) } else { Call::SubTake(st.n_sub, variant) });
+  }
+  if kind == Kind::Publish && !st.src_done {
+    if !st.connected {
+      cur.push(Call::Connect);
+      st.connected = true;
+      rec(cur, st, kind, hot, max_len, emit_from, out);
+      st.connected = false;
+      cur.pop();
+    } else {
+      cur.push(Call::Disconnect);
+      st.connected = false;
+      rec(cur, st, kind, hot, max_len, emit_from, out);
+      st.connected = true;
+      cur.pop();
+    }
+  }
+  if hot && !st.src_done {
+    for v in [1, 2] {
+      cur.push(Call::Emit(v));
+      rec(cur, st, kind, hot, max_len, emit_from, out);
+      cur.pop();
+    }
+    for t in [Call::SrcComplete, Call::SrcError] {
+      cur.push(t);
+      st.src_done = true;
+      rec(cur, st, kind, hot, max_len, emit_from, out);
+      st.src_done = false;
+      cur.pop();
+    }
+  }
+}
+
+/// every history of length 1..=max_len (stored)
+pub fn histories(kind: Kind, hot: bool, max_len: usize) -> Vec<Vec<Call>> {
+  let mut out = vec![];
+  rec(&mut vec![], &mut St { n_sub: 0, live: vec![], connected: false, src_done: false }, kind, hot, max_len, 0, &mut |h| out.push(h.to_vec()));
+  out
+}
+
+/// every proper extension of `prefix` up to max_len, streamed to `sink`
+pub fn extensions(prefix: &[Call], kind: Kind, hot: bool, max_len: usize, sink: &mut dyn FnMut(&[Call])) {
+  let mut st = St { n_sub: 0, live: vec![], connected: false, src_done: false };
+  for c in prefix {
+    match c {
+      Call::Sub(_) | Call::SubTake(..) => {
         st.n_sub += 1;
         st.live.push(true);
-        rec(cur, st, kind, hot, max_len, out);
-        st.live.pop();
-        st.n_sub -= 1;
-        cur.pop();
       }
-    }
-    for i in 0..st.n_sub {
-      if st.live[i] {
-        cur.push(Call::Unsub(i));
-        st.live[i] = false;
-        rec(cur, st, kind, hot, max_len, out);
-        st.live[i] = true;
-        cur.pop();
-      }
-    }
-    if kind == Kind::Publish && !st.src_done {
-      if !st.connected {
-        cur.push(Call::Connect);
-        st.connected = true;
-        rec(cur, st, kind, hot, max_len, out);
-        st.connected = false;
-        cur.pop();
-      } else {
-        cur.push(Call::Disconnect);
-        st.connected = false;
-        rec(cur, st, kind, hot, max_len, out);
-        st.connected = true;
-        cur.pop();
-      }
-    }
-    if hot && !st.src_done {
-      for v in [1, 2] {
-        cur.push(Call::Emit(v));
-        rec(cur, st, kind, hot, max_len, out);
-        cur.pop();
-      }
-      for t in [Call::SrcComplete, Call::SrcError] {
-        cur.push(t);
-        st.src_done = true;
-        rec(cur, st, kind, hot, max_len, out);
-        st.src_done = false;
-        cur.pop();
-      }
+      Call::Unsub(i) => st.live[*i] = false,
+      Call::Connect => st.connected = true,
+      Call::Disconnect => st.connected = false,
+      Call::SrcComplete | Call::SrcError => st.src_done = true,
+      Call::Emit(_) => {}
     }
   }
-  let mut out = vec![];
-  rec(&mut vec![], &mut St { n_sub: 0, live: vec![], connected: false, src_done: false }, kind, hot, max_len, &mut out);
-  out
+  let mut cur = prefix.to_vec();
+  rec(&mut cur, &mut st, kind, hot, max_len, prefix.len(), sink);
 }
 
 /// reference result: per step per observer expected events; per step the
@@ -426,31 +449,30 @@ pub fn check(tier: &str) -> Report {
     Src::Cold(vec![Ev::n(1), Ev::n(2)]),
     Src::Cold(vec![]),
   ];
-  let mut work: Vec<(Kind, Src, Arc<Vec<Vec<Call>>>)> = vec![];
+  // roots = all histories of length <= 3 (stored); each root of length 3 is expanded on the fly
+  const ROOT_LEN: usize = 3;
+  let mut work: Vec<(Kind, Src, bool, usize, Arc<Vec<Vec<Call>>>)> = vec![];
   for kind in [Kind::Publish, Kind::RefCount, Kind::Replay] {
-    let hh = Arc::new(histories(kind, true, if th { 9 } else { 7 }));
-    work.push((kind, Src::Hot, hh));
-    let hc = Arc::new(histories(kind, false, if th { 10 } else { 8 }));
+    let hot_len = if th { 9 } else { 7 };
+    let cold_len = if th { 9 } else { 8 };
+    work.push((kind, Src::Hot, true, hot_len, Arc::new(histories(kind, true, ROOT_LEN))));
+    let hc = Arc::new(histories(kind, false, ROOT_LEN));
     for c in &colds {
-      work.push((kind, c.clone(), hc.clone()));
+      work.push((kind, c.clone(), false, cold_len, hc.clone()));
     }
   }
   let findings: Mutex<BTreeMap<String, (String, u64)>> = Mutex::new(BTreeMap::new());
   let stats = Mutex::new((0u64, 0u64, 0u64));
-  let total_hist: usize = work.iter().map(|w| w.2.len()).sum();
-  for (kind, src, hs) in &work {
+  let total_hist = std::sync::atomic::AtomicU64::new(0);
+  let sample_hist: Mutex<Vec<String>> = Mutex::new(vec![]);
+  for (kind, src, hot, max_len, roots) in &work {
     let next = AtomicUsize::new(0);
     std::thread::scope(|sc| {
       for _ in 0..workers() {
         sc.spawn(|| {
           let mut local: BTreeMap<String, (String, u64)> = BTreeMap::new();
           let (mut runs, mut steps, mut nontriv) = (0u64, 0u64, 0u64);
-          loop {
-            let i = next.fetch_add(1, Ordering::Relaxed);
-            if i >= hs.len() {
-              break;
-            }
-            let h = &hs[i];
+          let mut eval = |h: &[Call]| {
             let exp = reference(*kind, src, h);
             let real = run_real(*kind, src, h);
             runs += 1;
@@ -462,7 +484,7 @@ pub fn check(tier: &str) -> Report {
             };
             if let Some(f) = &real.fault {
               add(if f.starts_with("self") { "self-deadlock" } else { "panic" }, f.clone());
-              continue;
+              return;
             }
             if exp.exp.iter().flatten().any(|v| !v.is_empty()) {
               nontriv += 1;
@@ -493,7 +515,25 @@ pub fn check(tier: &str) -> Report {
             if exp.valid_until == h.len() && real.src_total != exp.src_total {
               add("source-subscription-count", format!("the source was subscribed {} time(s), reference {}", real.src_total, exp.src_total));
             }
+          };
+          loop {
+            let i = next.fetch_add(1, Ordering::Relaxed);
+            if i >= roots.len() {
+              break;
+            }
+            let root = &roots[i];
+            eval(root);
+            if root.len() == ROOT_LEN && *max_len > ROOT_LEN {
+              extensions(root, *kind, *hot, *max_len, &mut |h| eval(h));
+            }
+            if i == roots.len() / 2 {
+              let mut sh = sample_hist.lock().unwrap();
+              if sh.len() < 3 {
+                sh.push(format!("{:?}, {} source, history: [{}]", kind, if *hot { "hot" } else { "cold" }, show(root)));
+              }
+            }
           }
+          total_hist.fetch_add(runs, Ordering::Relaxed);
           let mut g = findings.lock().unwrap();
           for (k, v) in local {
             let e = g.entry(k).or_insert((v.0, 0));
@@ -507,6 +547,7 @@ pub fn check(tier: &str) -> Report {
       }
     });
   }
+  let total_hist = total_hist.load(Ordering::Relaxed) as usize;
   let (runs, steps, nontriv) = *stats.lock().unwrap();
   r.traces = runs;
   r.transitions = steps;
@@ -514,9 +555,9 @@ pub fn check(tier: &str) -> Report {
   for (k, (d, n)) in findings.into_inner().unwrap() {
     r.add_finding(Finding { key: k, detail: d.clone(), replay: obj(vec![("engine", s("S")), ("detail", s(d))]), count: n });
   }
-  let h0 = &work[0].2;
-  r.samples.push(s(format!("publish, hot source, history: [{}]", show(&h0[h0.len() / 2]))));
-  r.samples.push(s(format!("ref_count, cold source n1 n2 C, history: [{}]", show(&work[9].2[work[9].2.len() / 3]))));
+  for x in sample_hist.into_inner().unwrap() {
+    r.samples.push(s(x));
+  }
   r.extra.push(("histories".into(), J::I(total_hist as i64)));
   r.extra.push(("nontrivial_runs".into(), J::I(nontriv as i64)));
   r.extra.push(("explanation".into(), s("states = nodes of the call-sequence tree visited; transitions = calls executed on fresh real publish/ref_count/replay objects; every run is compared stepwise (per subscriber events, live source subscriptions) with the reference machine")));
